@@ -180,9 +180,58 @@ class Scheduler:
         root = "partition_sets" if self.sc["specs"][sid]["type"] == "cubeset" else "partitions"
         return ["PROBE", sid, [root]]
 
+    # -- sweep mode: every property of one or two partitions, in a shuffled order
+    def _sweep_plan(self, hv):
+        r = self.rnd
+        parts = sorted(k for k, (_p, cls) in hv.nodes.items() if cls in PARTITION_CLASSES)
+        if not parts:
+            return []
+        chosen = r.sample(parts, min(len(parts), r.choice([1, 1, 2])))
+        plan = []
+        for nk in chosen:
+            path, cls = hv.nodes[nk]
+            surf = self.surface.get(cls, {"props": [], "methods": {}})
+            for p in surf["props"]:
+                plan.append(path + [p])
+            templates = CALL_TEMPLATES.get(cls, {})
+            for m in sorted(templates):
+                if m in surf["methods"]:
+                    plan.append(path + [{"call": m, "args": self._call_args(templates[m], hv)}])
+        r.shuffle(plan)
+        return plan
+
+    def _next_sweep_op(self):
+        r = self.rnd
+        st = self.__dict__.setdefault("_sweep", {"key": None, "plan": None, "opened": False})
+        if st["key"] is None or st["key"] not in self.handles:
+            cid = self._client()
+            st.update(key=None, plan=None, opened=False)
+            op = self._construct(cid)
+            st["key"] = "%s.%s" % (op[1], op[2])
+            return op
+        hv = self.handles[st["key"]]
+        if not st["opened"]:
+            st["opened"] = True
+            root = "partition_sets" if hv.nodes[pkey([])][1] == "cube.CubeSet" else "partitions"
+            return ["READ", hv.cid, hv.hid, [root]]
+        if st["plan"] is None:
+            st["plan"] = self._sweep_plan(hv)
+        if st["plan"]:
+            # an occasional repeat of something already read keeps I1 in play
+            if self.history and r.random() < 0.05:
+                key, path = r.choice(self.history[-40:])
+                if key in self.handles:
+                    return ["READ", self.handles[key].cid, self.handles[key].hid, path]
+            return ["READ", hv.cid, hv.hid, st["plan"].pop()]
+        # plan exhausted: another object on the same (by now edited) arguments
+        st.update(key=None, plan=None, opened=False)
+        return self._next_sweep_op()
+
     def next_op(self):
         r = self.rnd
         self.steps += 1
+        if self.kn.get("mode") == "sweep":
+            return self._next_sweep_op()
         cid = self._client()
         faults = self.kn["faults"]
         if not self.by_client[cid]:
